@@ -11,7 +11,7 @@ variable {a0 : Arm}
 
 /-- `K` looks at the `LCfg` part, the armed fault and the `fired` flag only -/
 theorem K.congr {x y : FCfg} (h : K a0 x) (hl : y.l = x.l) (ha : y.arm = x.arm) (hf : y.fired = x.fired) : K a0 y :=
-  h.fr ⟨by rw [hl]; exact Same2.rfl' _, by rw [hl], hf, ha, by rw [hl]⟩
+  h.fr ⟨by rw [hl]; exact Same2.rfl' _, Or.inl (by rw [hl]), hf, ha, by rw [hl]⟩
 
 theorem K.of_armok {x y : FCfg} (h : K a0 x) (hl : y.l = x.l) (ha : ArmOk a0 y) (hf : y.fired = x.fired) : K a0 y := by
   refine ⟨ha, by rw [hl]; exact h.tr, ?_⟩
@@ -27,7 +27,7 @@ theorem K.fire {x y : FCfg} (h : K a0 x) (hl : y.l = x.l) (ha : y.arm = none) (h
   · exact Or.inr ⟨by rw [hl]; exact hi, fun hm => by rw [hnm] at hm; cases hm⟩
 
 theorem Fr.setC' (x : FCfg) (c : Cfg) (hs : Same2 x.l.c c) (hst : c.st = x.l.c.st) : Fr x (x.setC c) :=
-  ⟨hs, hst, rfl, rfl, rfl⟩
+  ⟨hs, Or.inl hst, rfl, rfl, rfl⟩
 
 /-- a hook that is not a hook of a transition keeps `K` if its base implementation does -/
 theorem hookF_K (hk : HK) (hnm : mainHK hk = false) (base : FCfg → Res) (hbase : ∀ x', K a0 x' → K a0 (base x').1)
@@ -260,7 +260,7 @@ theorem reqKF_TQ (hN : NK a0 N) (q : Req) (x : FCfg) (h : ArmOk a0 x) (htr : x.l
 /-! ### the notification function of the model -/
 
 theorem Fr.updL' (x : FCfg) (f : LCfg → LCfg) (hc : (f x.l).c = x.l.c) (ht : (f x.l).trans = x.l.trans) : Fr x (x.updL f) :=
-  ⟨by rw [updL_l, hc]; exact Same2.rfl' _, by rw [updL_l, hc], rfl, rfl, ht⟩
+  ⟨by rw [updL_l, hc]; exact Same2.rfl' _, Or.inl (by rw [updL_l, hc]), rfl, rfl, ht⟩
 
 theorem TQ.updL {x : FCfg} (h : ArmOk a0 x) (f : LCfg → LCfg) (hc : (f x.l).c = x.l.c) (ht : (f x.l).trans = x.l.trans) :
     TQ a0 x (x.updL f) :=
